@@ -1,7 +1,7 @@
 (* Runs C16 protocol requests on the model extracted from Coq (c16x.ml).
    input : P init=<F> script=<edits>          (tokens as printed by harness/c16_regen.c)
    output: dup=<F> work=<F> final=<F> closed=<0|1>
-   F = insns/origs/vars/ovn/lrefs/gvars/regtab ; regtab = name.number by number ; insn = id.L.payload.r,r ; lref = lab,lab2,orig,orig2 (-1 = none) *)
+   F = insns/origs/vars/ovn/lrefs/gvars/regtab ; regtab = name.number by number ; insn = id.L.payload.r,r.D (D: insn->data != NULL) ; lref = lab,lab2,orig,orig2 (-1 = none) *)
 open C16x
 
 let rec nat_of_int n = if n <= 0 then O else S (nat_of_int (n - 1))
@@ -40,9 +40,9 @@ let ints s = List.map int_of_string (split ',' s)
 
 let parse_insn (s : string) : insn =
   match String.split_on_char '.' s with
-  | [id; l; pl; rs] ->
+  | [id; l; pl; rs; d] ->
     { iid = nat_of_int (int_of_string id); is_label = (l = "1"); payload = z_of_hex pl;
-      refs = List.map nat_of_int (ints rs) }
+      refs = List.map nat_of_int (ints rs); idata = (d = "1") }
   | _ -> failwith ("bad insn: " ^ s)
 
 let opt_nat n = if n < 0 then None else Some (nat_of_int n)
@@ -87,8 +87,8 @@ let parse_edit (s : string) : edit option =
 
 let show_insns l =
   String.concat ":" (List.map (fun i ->
-    Printf.sprintf "%d.%d.%s.%s" (int_of_nat i.iid) (if i.is_label then 1 else 0) (hex_of_z i.payload)
-      (String.concat "," (List.map (fun r -> string_of_int (int_of_nat r)) i.refs))) l)
+    Printf.sprintf "%d.%d.%s.%s.%d" (int_of_nat i.iid) (if i.is_label then 1 else 0) (hex_of_z i.payload)
+      (String.concat "," (List.map (fun r -> string_of_int (int_of_nat r)) i.refs)) (if i.idata then 1 else 0)) l)
 
 let show_opt = function None -> "-1" | Some n -> string_of_int (int_of_nat n)
 
